@@ -595,7 +595,7 @@ impl Property for C18 {
         "exploration"
     }
     fn rule(&self) -> String {
-        "decider builds a graph (2..14 vertices, ids with holes, density 0..1, vec or hash backend), a random initial decomposition and a history of 1..60 operations (leaf swap, local swap, subtree move, cached width/score query, clone-and-continue) whose internal random choices are decider draws through the existing `impl Rng` seam; or an annealer run with decider-chosen parameters; or rank_decomp through the ambient-RNG seam. Non-trivial: >=4 vertices, >=3 structural moves of >=2 kinds and a cached query between two moves (history); >=4 vertices and >=1 edge (annealer). Distinct by (scenario digest, event digest).".into()
+        "decider builds a graph (2..14 vertices; 15..26 in half of the annealer runs, ids with holes, density 0..1, vec or hash backend), a random initial decomposition and a history of 1..60 operations (leaf swap, local swap, subtree move, cached width/score query, clone-and-continue) whose internal random choices are decider draws through the existing `impl Rng` seam; or an annealer run with decider-chosen parameters; or rank_decomp through the ambient-RNG seam. Non-trivial: >=4 vertices, >=3 structural moves of >=2 kinds and a cached query between two moves (history); >=4 vertices and >=1 edge (annealer). Distinct by (scenario digest, event digest).".into()
     }
     fn assumptions(&self) -> Vec<String> {
         vec![
@@ -610,7 +610,7 @@ impl Property for C18 {
     fn sub_batches(&self) -> Vec<SubBatch> {
         vec![
             SubBatch { name: "history", quick: 60_000, thorough: 4_000_000 },
-            SubBatch { name: "annealer", quick: 12_000, thorough: 400_000 },
+            SubBatch { name: "annealer", quick: 40_000, thorough: 1_200_000 },
             SubBatch { name: "rank_decomp", quick: 400, thorough: 20_000 },
         ]
     }
@@ -636,8 +636,11 @@ impl Property for C18 {
             match d.choose("n.kind", 10) {
                 0 => 2,
                 1 => 3,
-                2 | 3 => d.range("n", 4, 8) as usize,
-                _ => d.range("n", 9, 14) as usize,
+                2 => d.range("n", 4, 8) as usize,
+                3 | 4 => d.range("n", 9, 14) as usize,
+                // score (a sum over all tree edges) and width (their maximum) come apart on larger
+                // graphs: only there can an accepted move lower the one and raise the other
+                _ => d.range("n", 15, 26) as usize,
             }
         } else {
             match d.choose("n.kind", 10) {
